@@ -131,6 +131,71 @@ def check_document(ctx, text, allow_nan, nobs_hint=None):
     return doc
 
 
+def members_of(x):
+    """The observables of one structure in the order the format numbers them (None for undefined Corr slices)."""
+    if is_obs(x):
+        return [x]
+    if is_corr(x):
+        out = []
+        for c in x.content:
+            out += [None] * (x.N * x.N) if c is None else list(np.ravel(np.asarray(c)))
+        return out
+    if isinstance(x, np.ndarray):
+        return [x[i] for i in np.ndindex(x.shape)]
+    return list(x)
+
+
+def check_document_numbers(ctx, doc, ol):
+    """The statement of the format, judged on the emitted document itself: 'value' holds the central values, a replica's table
+    holds the configuration number and delta + (r_mean - value) per member, 'cov' the matrix row by row, 'grad' the gradients.
+    Numbers are written losslessly, so the document must hold exactly these doubles (2 ulp are allowed for the one sum)."""
+    ol = ol if isinstance(ol, list) else [ol]
+    if len(doc.get('obsdata', [])) != len(ol):
+        return
+    for od, x in zip(doc['obsdata'], ol):
+        ms = members_of(x)
+        if len(od.get('value', [])) != len(ms):
+            continue
+        first = next((m for m in ms if m is not None), None)
+        if first is None:
+            continue
+        ctx.count('j:document:value-not-the-central-value')
+        ctx.count('j:document:table-not-delta-plus-offset')
+        good = all(m is None or (isinstance(v, (int, float)) and float(v) == float(m.value)) for v, m in zip(od['value'], ms))
+        if not good:
+            ctx.violation('document:value-not-the-central-value', {'got': od['value'][:4], 'exp': [None if m is None else m.value for m in ms[:4]]})
+        ctx.ev(2)
+        for ens in od.get('data', []):
+            for rep_ in ens.get('replica', []):
+                n = rep_['name']
+                tab = np.array(rep_['deltas'], dtype=float)
+                if n not in first.idl or tab.ndim != 2 or tab.shape != (len(first.idl[n]), len(ms) + 1):
+                    continue                 # shape problems are reported by the structural judgements
+                if not np.array_equal(tab[:, 0], np.array(list(first.idl[n]), dtype=float)):
+                    ctx.violation('document:table-not-delta-plus-offset', {'replica': n, 'what': 'configuration numbers'})
+                    continue
+                for k, m in enumerate(ms):
+                    if m is None:
+                        continue
+                    exp = np.asarray(m.deltas[n], dtype=float) + (m.r_values[n] - m.value)
+                    if not np.all(np.abs(tab[:, 1 + k] - exp) <= 2 * np.spacing(np.abs(exp))):
+                        i = int(np.argmax(np.abs(tab[:, 1 + k] - exp)))
+                        ctx.violation('document:table-not-delta-plus-offset', {'replica': n, 'member': k, 'row': i, 'got': float(tab[i, 1 + k]), 'exp': float(exp[i])})
+                        break
+        for cd in od.get('cdata', []):
+            n = cd['id']
+            ctx.count('j:document:covariance-or-gradient-not-exact')
+            ctx.ev()
+            if n not in first.covobs:
+                continue
+            okc = np.array_equal(np.array(cd['cov'], dtype=float), np.ravel(np.asarray(first.covobs[n].cov, dtype=float)))
+            g = np.array(cd['grad'], dtype=float)
+            okg = g.shape == (first.covobs[n].cov.shape[0], len(ms)) and all(
+                m is None or np.array_equal(g[:, k], np.asarray(m.covobs[n].grad, dtype=float).ravel()) for k, m in enumerate(ms))
+            if not (okc and okg):
+                ctx.violation('document:covariance-or-gradient-not-exact', {'id': n, 'cov_ok': bool(okc), 'grad_ok': bool(okg)})
+
+
 class DocMonitor(taps.Monitor):
     def __init__(self, ctx):
         self.ctx = ctx
@@ -141,7 +206,9 @@ class DocMonitor(taps.Monitor):
             return
         ol = args[0] if args else kwargs.get('ol')
         self.docs.append(result)
-        check_document(self.ctx, result, allow_nan=rt_io.has_undefined_slices(ol))
+        doc = check_document(self.ctx, result, allow_nan=rt_io.has_undefined_slices(ol))
+        if doc is not None:
+            check_document_numbers(self.ctx, doc, ol)
 
 
 def setup(ctx):
